@@ -1,0 +1,414 @@
+//go:build verif
+
+// Verification hook (build tag `verif` only): exported wrappers used by the C10 "corrupted storage
+// files" check (/verif harness command `corrupt`): real writers of every storage file kind, the
+// real open paths (newFileTableReader for table files and archives, openJournalWriter +
+// bootstrapJournal for the journal and its index, parseManifest), and the standalone parsers.
+// No behaviour of dolt changes; with the tag off this file is not compiled.  Prefix: VerifCor….
+package nbs
+
+import (
+	"bufio"
+	"bytes"
+	"context"
+	"errors"
+	"io"
+	"os"
+	"path/filepath"
+	"sync"
+
+	"github.com/dolthub/gozstd"
+	"golang.org/x/sync/errgroup"
+
+	dherrors "github.com/dolthub/dolt/go/libraries/utils/errors"
+	"github.com/dolthub/dolt/go/store/chunks"
+	"github.com/dolthub/dolt/go/store/hash"
+)
+
+// ---------------------------------------------------------------- table files / archives
+
+// VerifCorWriteTable drives tableWriter (addChunk in the given order, then finish).
+func VerifCorWriteTable(addrs []hash.Hash, datas [][]byte) (name hash.Hash, file []byte, err error) {
+	var total uint64
+	for _, d := range datas {
+		total += uint64(len(d))
+	}
+	buff := make([]byte, maxTableSize(uint64(len(addrs)), total)+uint64(len(addrs))*64)
+	tw := newTableWriter(buff, nil)
+	for i := range addrs {
+		tw.addChunk(addrs[i], datas[i])
+	}
+	n, nm, e := tw.finish()
+	return nm, buff[:n], e
+}
+
+// VerifCorWriteArchive drives archiveWriter: chunks with zstd[i] are stored zstd-compressed against
+// one shared dictionary byte span, the others as snappy records; written to <dir>/<name>.darc.
+func VerifCorWriteArchive(dir string, addrs []hash.Hash, datas [][]byte, zstd []bool, rawDict []byte) (name hash.Hash, err error) {
+	aw, err := newArchiveWriter(dir)
+	if err != nil {
+		return hash.Hash{}, err
+	}
+	var dictId uint32
+	var cdict *gozstd.CDict
+	for i := range addrs {
+		if zstd != nil && zstd[i] {
+			if dictId == 0 {
+				if cdict, err = gozstd.NewCDict(rawDict); err != nil {
+					return hash.Hash{}, err
+				}
+				if dictId, err = aw.writeByteSpan(gozstd.Compress(nil, rawDict)); err != nil {
+					return hash.Hash{}, err
+				}
+			}
+			id, e := aw.writeByteSpan(gozstd.CompressDict(nil, datas[i], cdict))
+			if e != nil {
+				return hash.Hash{}, e
+			}
+			if e = aw.stageZStdChunk(addrs[i], dictId, id); e != nil {
+				return hash.Hash{}, e
+			}
+			continue
+		}
+		cc := ChunkToCompressedChunk(chunks.NewChunkWithHash(addrs[i], datas[i]))
+		id, e := aw.writeByteSpan(cc.FullCompressedChunk)
+		if e != nil {
+			return hash.Hash{}, e
+		}
+		if e = aw.stageSnappyChunk(addrs[i], id); e != nil {
+			return hash.Hash{}, e
+		}
+	}
+	if err = aw.finalizeByteSpans(); err != nil {
+		return hash.Hash{}, err
+	}
+	if err = aw.indexFinalize(archiveOrigin{}); err != nil {
+		return hash.Hash{}, err
+	}
+	if name, err = aw.getName(); err != nil {
+		return hash.Hash{}, err
+	}
+	err = aw.flushToFile(filepath.Join(dir, name.String()+ArchiveFileSuffix))
+	return name, err
+}
+
+const VerifCorArchiveSuffix = ArchiveFileSuffix
+const VerifCorArchiveFooterSize = archiveFooterSize
+
+// VerifCorSource wraps a chunkSource opened the way the store opens it.
+type VerifCorSource struct{ cs chunkSource }
+
+// VerifCorOpen is newFileTableReader: <dir>/<name> (table file, chunk count from the manifest) or
+// <dir>/<name>.darc (archive).
+func VerifCorOpen(dir string, name hash.Hash, chunkCount uint32, mmapArchiveIndexes bool) (*VerifCorSource, error) {
+	cs, err := newFileTableReader(context.Background(), dir, name, chunkCount, NewUnlimitedMemQuotaProvider(), mmapArchiveIndexes, noopRefCounter{}, &Stats{})
+	if err != nil {
+		return nil, err
+	}
+	return &VerifCorSource{cs}, nil
+}
+
+type verifCorReaderAt struct{ b []byte }
+
+func (a verifCorReaderAt) Close() error                  { return nil }
+func (a verifCorReaderAt) clone() (tableReaderAt, error) { return a, nil }
+func (a verifCorReaderAt) Reader(ctx context.Context) (io.ReadCloser, error) {
+	return io.NopCloser(bytes.NewReader(a.b)), nil
+}
+func (a verifCorReaderAt) ReadAtWithStats(ctx context.Context, p []byte, off int64, stats *Stats) (int, error) {
+	return bytes.NewReader(a.b).ReadAt(p, off)
+}
+
+// VerifCorOpenSplit parses the table index from |indexFile| (a whole table file or its tail) and
+// serves chunk reads from |data| (which may be shorter than the index claims: the "index intact,
+// data region truncated / unreadable" situation of remote and cached-index table files).
+func VerifCorOpenSplit(indexFile []byte, data []byte, name hash.Hash) (*VerifCorSource, error) {
+	cs, err := newReaderFromIndexData(context.Background(), NewUnlimitedMemQuotaProvider(), indexFile, name, verifCorReaderAt{data}, fileBlockSize)
+	if err != nil {
+		return nil, err
+	}
+	return &VerifCorSource{cs}, nil
+}
+
+func (s *VerifCorSource) Close() error  { return s.cs.close() }
+func (s *VerifCorSource) Count() uint32 { return s.cs.count() }
+
+func (s *VerifCorSource) Has(h hash.Hash) (bool, error) {
+	ok, _, err := s.cs.has(h, nil)
+	return ok, err
+}
+
+func (s *VerifCorSource) Get(h hash.Hash) ([]byte, error) {
+	d, _, err := s.cs.get(context.Background(), h, nil, &Stats{})
+	return d, err
+}
+
+type VerifCorChunk struct {
+	H    hash.Hash
+	Data []byte
+}
+
+// GetMany passes the records in the given order (callers sort by prefix as the store does).
+// NB: the reads run on errgroup goroutines; a panic there cannot be recovered by the caller.
+func (s *VerifCorSource) GetMany(addrs []hash.Hash) (got []VerifCorChunk, found []bool, remaining bool, err error) {
+	recs := make([]getRecord, len(addrs))
+	for i := range addrs {
+		recs[i] = getRecord{a: &addrs[i], prefix: addrs[i].Prefix()}
+	}
+	var mu sync.Mutex
+	eg, ctx := errgroup.WithContext(context.Background())
+	remaining, _, err = s.cs.getMany(ctx, eg, recs, func(_ context.Context, c *chunks.Chunk) {
+		mu.Lock()
+		got = append(got, VerifCorChunk{H: c.Hash(), Data: append([]byte(nil), c.Data()...)})
+		mu.Unlock()
+	}, nil, &Stats{})
+	if e2 := eg.Wait(); err == nil {
+		err = e2
+	}
+	found = make([]bool, len(recs))
+	for i := range recs {
+		found[i] = recs[i].found
+	}
+	return
+}
+
+func (s *VerifCorSource) HasMany(addrs []hash.Hash) (has []bool, remaining bool, err error) {
+	recs := make([]hasRecord, len(addrs))
+	for i := range addrs {
+		recs[i] = hasRecord{a: &addrs[i], prefix: addrs[i].Prefix(), order: i}
+	}
+	remaining, _, err = s.cs.hasMany(recs, nil)
+	has = make([]bool, len(recs))
+	for i := range recs {
+		has[i] = recs[i].has
+	}
+	return
+}
+
+func (s *VerifCorSource) IterateAll() (got []VerifCorChunk, err error) {
+	err = s.cs.iterateAllChunks(context.Background(), func(c chunks.Chunk) {
+		got = append(got, VerifCorChunk{H: c.Hash(), Data: append([]byte(nil), c.Data()...)})
+	}, &Stats{})
+	return
+}
+
+// VerifCorReadTableFooter / VerifCorParseTableIndex: the standalone parsers over a byte buffer.
+func VerifCorReadTableFooter(b []byte) (uint32, uint64, error) {
+	return ReadTableFooter(bytes.NewReader(b))
+}
+
+// VerifCorParseTableIndex is parseTableIndex (buff must be exactly index+footer); returns the count.
+func VerifCorParseTableIndex(b []byte) (uint32, error) {
+	idx, err := parseTableIndex(context.Background(), b, NewUnlimitedMemQuotaProvider())
+	if err != nil {
+		return 0, err
+	}
+	defer idx.Close()
+	return idx.chunkCount(), nil
+}
+
+type VerifCorArcFooter struct {
+	IndexSize                               uint64
+	ByteSpanCount, ChunkCount, MetadataSize uint32
+	FormatVersion                           byte
+}
+
+// VerifCorBuildArchiveFooter is buildArchiveFooter over |buf| (callers pass archiveFooterSize bytes).
+func VerifCorBuildArchiveFooter(buf []byte, fileSize uint64) (VerifCorArcFooter, error) {
+	f, err := buildArchiveFooter(hash.Hash{}, fileSize, buf)
+	return VerifCorArcFooter{f.indexSize, f.byteSpanCount, f.chunkCount, f.metadataSize, f.formatVersion}, err
+}
+
+func VerifCorProllyBinSearch(slice []uint64, target uint64) int { return prollyBinSearch(slice, target) }
+
+// ---------------------------------------------------------------- journal + journal index
+
+const VerifCorJournalFileName = chunkJournalName
+const VerifCorJournalIndexFileName = journalIndexFileName
+
+// VerifCorMakeJournal creates <dir>/journal (+ its index file) with the real journalWriter: for each
+// batch the chunks are written, then a root hash record is committed (an index meta record is
+// flushed whenever more than |maxNovel| lookups are pending).  Returns the roots.
+func VerifCorMakeJournal(dir string, batches [][][]byte, maxNovel int) (addrs [][]hash.Hash, roots []hash.Hash, err error) {
+	ctx := context.Background()
+	wr, err := createJournalWriter(ctx, filepath.Join(dir, chunkJournalName))
+	if err != nil {
+		return nil, nil, err
+	}
+	wr.maxNovel = maxNovel
+	if _, err = wr.bootstrapJournal(ctx, true, nil, nil); err != nil {
+		wr.Close()
+		return nil, nil, err
+	}
+	for _, b := range batches {
+		var as []hash.Hash
+		for _, d := range b {
+			c := chunks.NewChunk(d)
+			if err = wr.writeCompressedChunk(ctx, dherrors.FatalBehaviorError, ChunkToCompressedChunk(c)); err != nil {
+				wr.Close()
+				return nil, nil, err
+			}
+			as = append(as, c.Hash())
+		}
+		addrs = append(addrs, as)
+		root := chunks.NewChunk(append([]byte("root:"), as[len(as)-1][:]...)).Hash()
+		if err = wr.commitRootHash(ctx, dherrors.FatalBehaviorError, root); err != nil {
+			wr.Close()
+			return nil, nil, err
+		}
+		roots = append(roots, root)
+	}
+	return addrs, roots, wr.Close()
+}
+
+type VerifCorJournal struct {
+	wr       *journalWriter
+	Root     hash.Hash
+	Off      int64
+	Indexed  int64
+	Warnings []string
+}
+
+// VerifCorOpenJournal is openJournalWriter + bootstrapJournal (index load + replay), as
+// ChunkJournal.bootstrapJournalWriter does for an existing journal.
+func VerifCorOpenJournal(dir string, canWrite bool) (*VerifCorJournal, error) {
+	ctx := context.Background()
+	wr, ok, err := openJournalWriter(ctx, filepath.Join(dir, chunkJournalName))
+	if err != nil {
+		return nil, err
+	} else if !ok {
+		return nil, errors.New("missing chunk journal")
+	}
+	j := &VerifCorJournal{wr: wr}
+	j.Root, err = wr.bootstrapJournal(ctx, canWrite, nil, func(e error) { j.Warnings = append(j.Warnings, e.Error()) })
+	if err != nil {
+		wr.Close()
+		return nil, err
+	}
+	j.Off, j.Indexed = wr.off, wr.indexed
+	return j, nil
+}
+
+func (j *VerifCorJournal) Close() error         { return j.wr.Close() }
+func (j *VerifCorJournal) Has(h hash.Hash) bool { return j.wr.hasAddr(h) }
+
+// Get is journalWriter.getCompressedChunk + ToChunk (what journalChunkSource.get does).
+func (j *VerifCorJournal) Get(h hash.Hash) (data []byte, found bool, err error) {
+	cc, err := j.wr.getCompressedChunk(h)
+	if err != nil {
+		return nil, true, err
+	}
+	if cc.IsEmpty() && len(cc.FullCompressedChunk) == 0 {
+		return nil, false, nil
+	}
+	ch, err := cc.ToChunk()
+	if err != nil {
+		return nil, true, err
+	}
+	return ch.Data(), true, nil
+}
+
+func VerifCorValidateRecord(buf []byte) error { return validateJournalRecord(buf) }
+
+type VerifCorRec struct {
+	Length   uint32
+	Kind     uint8
+	Addr     hash.Hash
+	Payload  []byte
+	Checksum uint32
+}
+
+func VerifCorReadRecord(buf []byte) (VerifCorRec, error) {
+	r, err := readJournalRecord(buf)
+	if err != nil {
+		return VerifCorRec{}, err
+	}
+	return VerifCorRec{r.length, uint8(r.kind), r.address, append([]byte(nil), r.payload...), r.checksum}, nil
+}
+
+// VerifCorScanJournal is processJournalRecords over an in-memory journal (no truncation).
+func VerifCorScanJournal(data []byte) (recs []VerifCorRec, offs []int64, end int64, warnings []string, err error) {
+	end, err = processJournalRecords(context.Background(), "journal", bytes.NewReader(data), false, 0, func(o int64, r journalRec) error {
+		recs = append(recs, VerifCorRec{r.length, uint8(r.kind), r.address, append([]byte(nil), r.payload...), r.checksum})
+		offs = append(offs, o)
+		return nil
+	}, func(e error) { warnings = append(warnings, e.Error()) })
+	return
+}
+
+func VerifCorJournalBuffSize() uint32 { return journalWriterBuffSize }
+func VerifCorSetJournalBuffSize(n uint32) (old uint32) {
+	old = journalWriterBuffSize
+	journalWriterBuffSize = n
+	return
+}
+
+type VerifCorIdxLookup struct {
+	Addr16 [16]byte
+	Offset uint64
+	Length uint32
+}
+type VerifCorIdxBatch struct {
+	Start, End int64
+	CheckSum   uint32
+	Computed   uint32
+	Latest     hash.Hash
+	Lookups    []VerifCorIdxLookup
+}
+
+func VerifCorProcessIndex(data []byte) (batches []VerifCorIdxBatch, off int64, err error) {
+	off, err = processIndexRecords(bufio.NewReader(bytes.NewReader(data)), int64(len(data)), func(m lookupMeta, batch []lookup, crc uint32) error {
+		b := VerifCorIdxBatch{Start: m.batchStart, End: m.batchEnd, CheckSum: m.checkSum, Computed: crc, Latest: m.latestHash}
+		for _, l := range batch {
+			b.Lookups = append(b.Lookups, VerifCorIdxLookup{Addr16: l.a, Offset: l.r.Offset, Length: l.r.Length})
+		}
+		batches = append(batches, b)
+		return nil
+	})
+	return
+}
+
+func VerifCorIsMalformedIndex(err error) bool { return errors.Is(err, ErrMalformedIndex) }
+func VerifCorCrc(b []byte) uint32             { return crc(b) }
+
+// ---------------------------------------------------------------- manifest
+
+type VerifCorManifest struct {
+	Vers, NbfVers     string
+	Lock, Root, GcGen hash.Hash
+	Names             []hash.Hash
+	Counts            []uint32
+}
+
+func VerifCorParseManifest(b []byte) (VerifCorManifest, error) {
+	c, err := parseManifest(bytes.NewReader(b))
+	m := VerifCorManifest{Vers: c.manifestVers, NbfVers: c.nbfVers, Lock: c.lock, Root: c.root, GcGen: c.gcGen}
+	for _, s := range c.specs {
+		m.Names = append(m.Names, s.name)
+		m.Counts = append(m.Counts, s.chunkCount)
+	}
+	return m, err
+}
+
+func VerifCorWriteManifest(nbfVers string, lock, root, gcGen hash.Hash, names []hash.Hash, counts []uint32) ([]byte, error) {
+	c := manifestContents{nbfVers: nbfVers, lock: lock, root: root, gcGen: gcGen}
+	for i := range names {
+		c.specs = append(c.specs, tableSpec{name: names[i], chunkCount: counts[i]})
+	}
+	var buf bytes.Buffer
+	err := writeManifest(&buf, c)
+	return buf.Bytes(), err
+}
+
+// VerifCorParseManifestFile is parseIfExists on <dir>/manifest (the store's own read path).
+func VerifCorParseManifestFile(dir string) (exists bool, m VerifCorManifest, err error) {
+	ok, c, err := parseIfExists(context.Background(), dir, nil)
+	m = VerifCorManifest{Vers: c.manifestVers, NbfVers: c.nbfVers, Lock: c.lock, Root: c.root, GcGen: c.gcGen}
+	for _, s := range c.specs {
+		m.Names = append(m.Names, s.name)
+		m.Counts = append(m.Counts, s.chunkCount)
+	}
+	return ok, m, err
+}
+
+var _ = os.Remove
